@@ -198,10 +198,48 @@ def setupGridC (a : EngArgs) (g : GridShape) (vol h : Rat) : CRes CSim :=
   -- `SamplingStep()` for t0 sampling
   CSampler.samplingStep S.conds S.smp S.x >>= fun smp => .ok { S with smp := smp }
 
+/-- graph `AlgorithmSpecificInit`: `v.resize(n_meshes)` then `v[i].resize(mesh_neighbor_n[i]*n_species)` -/
+def nestedInit {α : Type} [Inhabited (Vec α)] (n ns : Nat) (nn : Vec Int) (zero : α) : CRes (Vec (Vec α)) :=
+  forUpTo (fun i (v : Vec (Vec α)) => nn.rd i >>= fun m => v.wr i (Vec.replicate (m.toNat * ns) zero)) n (Vec.replicate n default)
+
+/-- the further arguments of `engineexport_initialize_graph` -/
+structure GraphArgs where
+  n : Nat
+  nEdges : Nat
+  edgeI : Vec Int
+  edgeJ : Vec Int
+  edgeSfc : Vec Rat
+  edgeDst : Vec Rat
+  vol : Vec Rat
+  /-- `pow(v, 1.0/3.0)` -/
+  cbrt : Rat → Rat
+
+/-- `engineexport_initialize_graph` + `SimulationAlgorithmGraphBase::Init` -/
+def setupGraphC (a : EngArgs) (ga : GraphArgs) : CRes CSim :=
+  let n := ga.n
+  mkVec ga.edgeI ga.nEdges >>= fun ei => mkVec ga.edgeJ ga.nEdges >>= fun ej =>
+  mkVec ga.edgeSfc ga.nEdges >>= fun sfc => mkVec ga.edgeDst ga.nEdges >>= fun dst =>
+  mkVec a.state (n * a.ns) >>= fun st0 =>
+  speciesFirstToMeshFirst (a.process st0) a.ns n >>= fun x0 =>
+  mkVec a.chstt (n * a.ns) >>= fun ch0 => speciesFirstToMeshFirst ch0 a.ns n >>= fun ch =>
+  mkVec a.env n >>= fun env => mkVec ga.vol n >>= fun vol =>
+  mkVec a.k (a.nenv * a.nr) >>= fun k => mkVec a.sub (a.ns * a.nr) >>= fun sub => mkVec a.sto (a.ns * a.nr) >>= fun sto =>
+  mkVec a.D (a.ns * a.nenv) >>= fun D => mkVec a.sampleT a.sampleN >>= fun ts =>
+  setNeighbors n ga.nEdges ei ej sfc dst >>= fun nb =>
+  buildMeshKr n a.ns a.nr env sub k (fun i => vol.rd i) >>= fun kr =>
+  buildMeshKdGraph n a.ns a.nenv nb env vol D ga.cbrt >>= fun kd =>
+  nestedInit n a.ns nb.nn (0 : Int) >>= fun mnd => nestedInit n a.ns nb.nn (0 : Rat) >>= fun mad =>
+  let T : Tabs := { n := n, ns := a.ns, nr := a.nr, nenv := a.nenv, chstt := ch, sub := sub, sto := sto, kr := kr }
+  let G : GraphTabs := GraphTabs.ofParts nb kd
+  let S : CSim := { T := T, L := graphLayout G, conds := Gen.tSampleLoopCondsGraph, x := x0, dt := a.dt,
+                    scratch := scratchInit a.option n a.ns a.nr (.nested mnd) (.nested mad), smp := freshSampler a ts, ucnt := 0 }
+  CSampler.samplingStep S.conds S.smp S.x >>= fun smp => .ok { S with smp := smp }
+
 /-! ### lifecycle of one engine object -/
 
 inductive CCall where
   | setupGrid (a : EngArgs) (g : GridShape) (vol h : Rat) (stateSize : Nat)
+  | setupGraph (a : EngArgs) (ga : GraphArgs) (stateSize : Nat)
   | iterate
   | iterateN (n : Int)
   | run (k : Nat)
@@ -222,6 +260,7 @@ def CWorld.boot : CWorld := ⟨.null, true, 0⟩
 /-- one call; the entry points return at once when `global_algo_freed` -/
 def CWorld.call (o : Oracles) (w : CWorld) : CCall → CRes CWorld
   | .setupGrid a g vol h sz => setupGridC a g vol h >>= fun S => .ok { cur := .live S, freed := false, stateSize := sz }
+  | .setupGraph a ga sz => setupGraphC a ga >>= fun S => .ok { cur := .live S, freed := false, stateSize := sz }
   | .finalize =>
     if w.freed then .ok w
     else match w.cur with
